@@ -32,6 +32,7 @@ static C01: Check = Check {
     real: REAL,
     simulated: SIMULATED,
     exhaustive_after: None,
+    probes: &["issuer_reload_after_restart", "holder_restart_before_verify", "preempted_inside.create_generators", "preempted_inside.messages_to_scalar"],
 };
 static C02: Check = Check {
     property: "C02",
@@ -44,6 +45,7 @@ static C02: Check = Check {
     real: REAL,
     simulated: SIMULATED,
     exhaustive_after: Some(16),
+    probes: &[],
 };
 
 static C03: Check = Check {
@@ -57,6 +59,7 @@ static C03: Check = Check {
     real: REAL,
     simulated: SIMULATED,
     exhaustive_after: None,
+    probes: &["U=0", "R=0", "L=0", "EINTR_during_proof_gen", "short_read_during_proof_gen", "holder_restart_before_proof_gen", "proof_gen_drew_fresh_entropy", "preempted_inside.calculate_random_scalars", "preempted_inside.create_generators"],
 };
 static C04: Check = Check {
     property: "C04",
@@ -69,6 +72,7 @@ static C04: Check = Check {
     real: REAL,
     simulated: SIMULATED,
     exhaustive_after: Some(16),
+    probes: &["U=0", "R=0", "L=0"],
 };
 
 static C08: Check = Check {
@@ -82,6 +86,7 @@ static C08: Check = Check {
     real: REAL,
     simulated: SIMULATED,
     exhaustive_after: Some(129),
+    probes: &["honest_extended_reached", "honest_truncated_reached"],
 };
 
 static C09: Check = Check {
@@ -95,6 +100,7 @@ static C09: Check = Check {
     real: REAL,
     simulated: SIMULATED,
     exhaustive_after: Some(48),
+    probes: &[],
 };
 
 static C05: Check = Check {
@@ -108,6 +114,7 @@ static C05: Check = Check {
     real: REAL,
     simulated: SIMULATED,
     exhaustive_after: Some(642),
+    probes: &["L=0", "M=0", "issued_without_commitment", "holder_restart_between_commit_and_unblind", "commit_drew_fresh_entropy", "blind_proof_gen_drew_fresh_entropy", "two_sessions_same_key_and_header"],
 };
 static C06: Check = Check {
     property: "C06",
@@ -120,6 +127,7 @@ static C06: Check = Check {
     real: REAL,
     simulated: SIMULATED,
     exhaustive_after: None,
+    probes: &[],
 };
 
 static C07: Check = Check {
@@ -133,6 +141,7 @@ static C07: Check = Check {
     real: REAL,
     simulated: SIMULATED,
     exhaustive_after: None,
+    probes: &["proof_with_more_than_32_random_scalars", "commitment_with_more_than_32_random_scalars", "commit_with_absent_list"],
 };
 
 static C10: Check = Check {
@@ -146,6 +155,7 @@ static C10: Check = Check {
     real: REAL,
     simulated: SIMULATED,
     exhaustive_after: None,
+    probes: &[],
 };
 static C11: Check = Check {
     property: "C11",
@@ -158,6 +168,7 @@ static C11: Check = Check {
     real: REAL,
     simulated: SIMULATED,
     exhaustive_after: Some(2),
+    probes: &[],
 };
 static C12: Check = Check {
     property: "C12",
@@ -170,6 +181,7 @@ static C12: Check = Check {
     real: REAL,
     simulated: SIMULATED,
     exhaustive_after: None,
+    probes: &[],
 };
 
 fn node_init() {
